@@ -52,6 +52,7 @@ func (fe *FnExec) execInstr(fr *frame, st *State, in ssa.Instruction) {
 	case *ssa.Alloc:
 		fe.doAlloc(st, x)
 	case *ssa.Store:
+		fe.sharedStateObligation(fr, st, x.Addr, "stores into", x.Pos())
 		p := fe.asPtr(fe.val(x.Addr), x.Addr.Type().Underlying().(*types.Pointer).Elem())
 		fe.store(st, p, fe.val(x.Val))
 	case *ssa.UnOp:
@@ -131,6 +132,7 @@ func (fe *FnExec) execInstr(fr *frame, st *State, in ssa.Instruction) {
 			fe.lookupAssumes(fr, st, x, fe.regs[x])
 		}
 	case *ssa.Slice:
+		fe.sharedStateObligation(fr, st, x.X, "takes a writable slice of", x.Pos())
 		fe.regs[x] = fe.doSlice(fr, st, x)
 	case *ssa.MakeSlice:
 		l := fe.intTerm(fe.val(x.Len))
@@ -996,6 +998,52 @@ func (fe *FnExec) errPropObligations(fr *frame, st *State, x *ssa.Return, rv []V
 		fe.oblige(fr, fmt.Sprintf("errprop[%s]@ret%d", site, len(fr.rets)-1), nil, tAnd(st.pc, pcCall), goal, x.Pos(),
 			"an error reported by "+site+" on this path is reported by the function")
 	}
+}
+
+// sharedStateObligation: package-level variables are state shared by every caller and every goroutine.  The library
+// keeps none that it writes (sentinel errors, the pragma bytes and a sync.Pool are all there is), which is what lets
+// per-object contracts and the lock discipline of C08 speak for concurrent use of different objects.  A function
+// under contract that stores into a package-level variable, slices a package-level array, or hands the address of one
+// to a callee gets an obligation that cannot be discharged: no contract names such state.  Values of package sync
+// (Pool, Mutex, Once ...) are made to be shared and are exempt.
+func (fe *FnExec) sharedStateObligation(fr *frame, st *State, addr ssa.Value, what string, pos token.Pos) {
+	if fe.quiet || fr.inlined || fr.fn.Name() == "init" || strings.HasPrefix(fr.fn.Name(), "init#") {
+		return // package initialisers are where package-level variables get their values
+	}
+	g := globalRoot(addr)
+	if g == nil {
+		return
+	}
+	if _, isPtr := addr.Type().Underlying().(*types.Pointer); !isPtr {
+		return
+	}
+	t := g.Type().Underlying().(*types.Pointer).Elem()
+	if n, ok := t.(*types.Named); ok && n.Obj().Pkg() != nil && n.Obj().Pkg().Path() == "sync" {
+		return
+	}
+	fe.sharedN++
+	fe.oblige(fr, fmt.Sprintf("shared[%d]", fe.sharedN-1), nil, st.pc, "false", pos,
+		"a function under contract "+what+" the package-level variable "+g.Name()+": state shared by every caller and goroutine, named by no contract")
+}
+
+// globalRoot: the package-level variable an address is derived from (the variable itself, or a field / element of it).
+func globalRoot(v ssa.Value) *ssa.Global {
+	for i := 0; i < 8 && v != nil; i++ {
+		switch x := v.(type) {
+		case *ssa.Global:
+			if x.Pkg != nil && x.Pkg.Pkg != nil && strings.HasPrefix(x.Pkg.Pkg.Path(), "github.com/ipld/go-car") {
+				return x
+			}
+			return nil
+		case *ssa.FieldAddr:
+			v = x.X
+		case *ssa.IndexAddr:
+			v = x.X
+		default:
+			return nil
+		}
+	}
+	return nil
 }
 
 // optFwdObligation: the option-forwarding family.  A function that takes variadic options and calls a function that
